@@ -1328,107 +1328,273 @@ func c01MatchFormula(c *Ctx, r *Result) {
 		r.Undecide("R01g: the candidate mask computed by %s before the regex loop was not found", key)
 		return
 	}
-	type env struct{ in, rb, any, val, found uint64 }
-	var eval func(v ssa.Value, e env, d int) (uint64, bool)
-	eval = func(v ssa.Value, e env, d int) (uint64, bool) {
-		if d > 40 {
-			return 0, false
+	// A small concrete interpreter over single bits: the function (and the same-package helpers it
+	// calls) is executed block by block for every admissible assignment of one bit position and
+	// every scenario of the event's value (nil / not hashable / hashable and not registered /
+	// registered); it stops where control enters the regex loop (or returns).
+	type env struct{ in, rb, any, val, found, nonnil, hashable uint64 }
+	type sym struct {
+		kind int // 0 number / bool, 1 the event's value, 2 the receiver, 3 tuple
+		n    uint64
+		tup  []uint64
+	}
+	var stopBlock *ssa.BasicBlock
+	for _, b := range fn.Blocks {
+		for _, in := range b.Instrs {
+			if p, ok := in.(*ssa.Phi); ok && isLoopHeaderPhi(p) && isIntType(p.Type()) && stopBlock == nil {
+				stopBlock = b
+			}
 		}
-		switch x := v.(type) {
-		case *ssa.Parameter:
-			if x == inParam {
-				return e.in, true
+	}
+	var run func(f *ssa.Function, args []sym, e env, top bool, depth int) ([]uint64, bool)
+	run = func(f *ssa.Function, args []sym, e env, top bool, depth int) ([]uint64, bool) {
+		if depth > 3 || len(f.Blocks) == 0 || len(args) != len(f.Params) {
+			return nil, false
+		}
+		vals := map[ssa.Value]sym{}
+		for i, p := range f.Params {
+			vals[p] = args[i]
+		}
+		var val func(v ssa.Value, d int) (sym, bool)
+		val = func(v ssa.Value, d int) (sym, bool) {
+			if d > 60 {
+				return sym{}, false
 			}
-		case *ssa.Const:
-			if k, ok := constInt(x); ok {
-				if k == 0 {
-					return 0, true
+			if s, ok := vals[v]; ok {
+				return s, true
+			}
+			num := func(n uint64) (sym, bool) { return sym{n: n}, true }
+			switch x := v.(type) {
+			case *ssa.Const:
+				if x.Value == nil {
+					return sym{}, false
 				}
-				return 0, false
-			}
-		case *ssa.UnOp:
-			if x.Op == token.MUL {
-				if fa, ok := x.X.(*ssa.FieldAddr); ok {
-					switch fieldVar(fa) {
-					case fBits:
-						return e.rb, true
-					case fAny:
-						return e.any, true
+				if b, isB := x.Type().Underlying().(*types.Basic); isB && b.Info()&types.IsBoolean != 0 {
+					if x.Value.String() == "true" {
+						return num(1)
 					}
+					return num(0)
 				}
-			}
-			if x.Op == token.XOR { // ^x
-				a, ok := eval(x.X, e, d+1)
-				return ^a & 1, ok
-			}
-		case *ssa.Extract:
-			if lk, ok := x.Tuple.(*ssa.Lookup); ok && x.Index == 0 {
-				if ld, ok := lk.X.(*ssa.UnOp); ok {
-					if fa, ok := ld.X.(*ssa.FieldAddr); ok && fieldVar(fa) == fVal {
-						if e.found == 0 {
-							return 0, true
-						}
-						return e.val, true
-					}
+				if k, ok := constInt(x); ok && k == 0 {
+					return num(0)
 				}
-			}
-		case *ssa.BinOp:
-			a, ok1 := eval(x.X, e, d+1)
-			b, ok2 := eval(x.Y, e, d+1)
-			if !ok1 || !ok2 {
-				return 0, false
-			}
-			switch x.Op {
-			case token.OR:
-				return a | b, true
-			case token.AND:
-				return a & b, true
-			case token.XOR:
-				return a ^ b, true
-			case token.AND_NOT:
-				return a &^ b, true
-			}
-		case *ssa.Phi:
-			// choose the edge by whether the block it comes from is under "value registered"
-			var foundEdge, otherEdge ssa.Value
-			for i, pr := range x.Block().Preds {
-				under := false
-				if len(pr.Instrs) > 0 {
-					for fv := range FactsAt(pr.Instrs[len(pr.Instrs)-1]).TrueV {
-						if ex, ok := fv.(*ssa.Extract); ok && ex.Index == 1 {
-							if lk, ok := ex.Tuple.(*ssa.Lookup); ok {
-								if ld, ok := lk.X.(*ssa.UnOp); ok {
-									if fa, ok := ld.X.(*ssa.FieldAddr); ok && fieldVar(fa) == fVal {
-										under = true
-									}
-								}
+				return sym{}, false
+			case *ssa.Convert:
+				return val(x.X, d+1)
+			case *ssa.ChangeType:
+				return val(x.X, d+1)
+			case *ssa.UnOp:
+				switch x.Op {
+				case token.MUL:
+					if fa, ok := x.X.(*ssa.FieldAddr); ok {
+						if base, ok := val(fa.X, d+1); ok && base.kind == 2 {
+							switch fieldVar(fa) {
+							case fBits:
+								return num(e.rb)
+							case fAny:
+								return num(e.any)
 							}
 						}
 					}
+				case token.XOR:
+					a, ok := val(x.X, d+1)
+					return sym{n: ^a.n & 1}, ok && a.kind == 0
+				case token.NOT:
+					a, ok := val(x.X, d+1)
+					return sym{n: a.n ^ 1}, ok && a.kind == 0
 				}
-				if under {
-					foundEdge = x.Edges[i]
-				} else {
-					if otherEdge != nil && otherEdge != x.Edges[i] {
-						return 0, false
+			case *ssa.BinOp:
+				if isNilConst(x.Y) || isNilConst(x.X) {
+					o := x.X
+					if isNilConst(x.X) {
+						o = x.Y
 					}
-					otherEdge = x.Edges[i]
+					if a, ok := val(o, d+1); ok && a.kind == 1 {
+						switch x.Op {
+						case token.NEQ:
+							return num(e.nonnil)
+						case token.EQL:
+							return num(e.nonnil ^ 1)
+						}
+					}
+					return sym{}, false
+				}
+				a, ok1 := val(x.X, d+1)
+				b, ok2 := val(x.Y, d+1)
+				if !ok1 || !ok2 || a.kind != 0 || b.kind != 0 {
+					return sym{}, false
+				}
+				switch x.Op {
+				case token.OR:
+					return num(a.n | b.n)
+				case token.AND:
+					return num(a.n & b.n)
+				case token.XOR:
+					return num(a.n ^ b.n)
+				case token.AND_NOT:
+					return num(a.n &^ b.n)
+				}
+			case *ssa.Lookup:
+				ld, ok := x.X.(*ssa.UnOp)
+				if !ok {
+					return sym{}, false
+				}
+				fa, ok := ld.X.(*ssa.FieldAddr)
+				if !ok || fieldVar(fa) != fVal {
+					return sym{}, false
+				}
+				if k, ok := val(x.Index, d+1); !ok || k.kind != 1 {
+					return sym{}, false
+				}
+				if e.nonnil == 1 && e.hashable == 0 {
+					return sym{}, false // hashing an unhashable value panics
+				}
+				got := uint64(0)
+				if e.found == 1 {
+					got = e.val
+				}
+				if x.CommaOk {
+					return sym{kind: 3, tup: []uint64{got, e.found}}, true
+				}
+				return num(got)
+			case *ssa.Extract:
+				t, ok := val(x.Tuple, d+1)
+				if !ok || t.kind != 3 || x.Index >= len(t.tup) {
+					return sym{}, false
+				}
+				return num(t.tup[x.Index])
+			case *ssa.Call:
+				if x.Call.IsInvoke() && x.Call.Method.Name() == "Comparable" {
+					// reflect.TypeOf(value).Comparable()
+					if tc, ok := x.Call.Value.(*ssa.Call); ok {
+						if cal := tc.Call.StaticCallee(); cal != nil && cal.Pkg != nil && cal.Pkg.Pkg.Path() == "reflect" && cal.Name() == "TypeOf" && len(tc.Call.Args) == 1 {
+							if a, ok := val(tc.Call.Args[0], d+1); ok && a.kind == 1 && e.nonnil == 1 {
+								return num(e.hashable)
+							}
+						}
+					}
+					return sym{}, false
+				}
+				cal := x.Call.StaticCallee()
+				if cal == nil || !c.inModule(cal) {
+					return sym{}, false
+				}
+				var as []sym
+				for _, a := range x.Call.Args {
+					sv, ok := val(a, d+1)
+					if !ok {
+						return sym{}, false
+					}
+					as = append(as, sv)
+				}
+				res, ok := run(cal, as, e, false, depth+1)
+				if !ok {
+					return sym{}, false
+				}
+				if len(res) == 1 {
+					return num(res[0])
+				}
+				return sym{kind: 3, tup: res}, true
+			}
+			return sym{}, false
+		}
+		cur := f.Blocks[0]
+		var prev *ssa.BasicBlock
+		for steps := 0; steps < 200; steps++ {
+			// phis
+			newPhis := map[ssa.Value]sym{}
+			for _, in := range cur.Instrs {
+				p, ok := in.(*ssa.Phi)
+				if !ok {
+					break
+				}
+				for i, pr := range cur.Preds {
+					if pr == prev {
+						if top && cur == stopBlock && isLoopHeaderPhi(p) && isIntType(p.Type()) {
+							sv, ok := val(p.Edges[i], 0)
+							if !ok || sv.kind != 0 {
+								return nil, false
+							}
+							return []uint64{sv.n}, true
+						}
+						if sv, ok := val(p.Edges[i], 0); ok {
+							newPhis[p] = sv
+						}
+						break
+					}
 				}
 			}
-			if e.found == 1 && foundEdge != nil {
-				return eval(foundEdge, e, d+1)
+			for k, v := range newPhis {
+				vals[k] = v
 			}
-			if otherEdge != nil {
-				return eval(otherEdge, e, d+1)
+			// values defined in this block are evaluated on demand, but must not be cached across a
+			// revisit — there is no loop before the stop block, so nothing is revisited
+			last := cur.Instrs[len(cur.Instrs)-1]
+			switch t := last.(type) {
+			case *ssa.If:
+				cv, ok := val(t.Cond, 0)
+				if !ok || cv.kind != 0 {
+					return nil, false
+				}
+				prev = cur
+				if cv.n&1 == 1 {
+					cur = cur.Succs[0]
+				} else {
+					cur = cur.Succs[1]
+				}
+			case *ssa.Jump:
+				prev = cur
+				cur = cur.Succs[0]
+			case *ssa.Return:
+				var out []uint64
+				for _, rv := range t.Results {
+					sv, ok := val(rv, 0)
+					if !ok || sv.kind != 0 {
+						return nil, false
+					}
+					out = append(out, sv.n)
+				}
+				return out, true
+			default:
+				return nil, false
 			}
 		}
-		return 0, false
+		return nil, false
+	}
+	eval := func(e env) (uint64, bool) {
+		args := make([]sym, len(fn.Params))
+		for i, p := range fn.Params {
+			switch {
+			case i == 0:
+				args[i] = sym{kind: 2}
+			case p == inParam:
+				args[i] = sym{n: e.in}
+			default:
+				args[i] = sym{kind: 1}
+			}
+		}
+		res, ok := run(fn, args, e, true, 0)
+		if !ok || len(res) != 1 {
+			return 0, false
+		}
+		return res[0], true
 	}
 	var bad []string
 	n := 0
-	for found := uint64(0); found <= 1; found++ {
+	for sc := 0; sc < 4; sc++ {
+		// 0: nil value, 1: not hashable, 2: hashable and not registered, 3: registered
 		for m := 0; m < 16; m++ {
-			e := env{in: uint64(m & 1), rb: uint64(m >> 1 & 1), any: uint64(m >> 2 & 1), val: uint64(m >> 3 & 1), found: found}
+			e := env{in: uint64(m & 1), rb: uint64(m >> 1 & 1), any: uint64(m >> 2 & 1), val: uint64(m >> 3 & 1)}
+			if sc >= 1 {
+				e.nonnil = 1
+			}
+			if sc >= 2 {
+				e.hashable = 1
+			}
+			if sc == 3 {
+				e.found = 1
+			}
+			found := e.found
 			if (e.any == 1 && e.rb == 0) || (e.val == 1 && e.rb == 0) || (e.any == 1 && e.val == 1) {
 				continue
 			}
@@ -1436,7 +1602,7 @@ func c01MatchFormula(c *Ctx, r *Result) {
 				continue
 			}
 			n++
-			got, ok := eval(start, e, 0)
+			got, ok := eval(e)
 			if !ok {
 				r.Undecide("R01g: the candidate mask of %s is not a bit-parallel formula over its parameter, rm.bits, rm.bitsAny and rm.bitsValue[value]", key)
 				return
